@@ -457,6 +457,8 @@ class Gen:
         """non-tunnel traffic: queries outside the domain, NS, A ns./www., garbage datagrams, forward replies"""
         r = self.rng.random()
         src = addr(0x0a630000 | self.rng.randrange(1, 9), 5353)
+        if self.rng.random() < 0.25:
+            src = addr((0xfd00 << 112) | self.rng.randrange(1, 9), 5353, 6)        # an asker that reaches us over IPv6
         base = self.srvtd[2:] if self.srvtd.startswith(b"*.") else self.srvtd
         sub = (b"x9." + base) if self.srvtd.startswith(b"*.") else base
         if r < 0.2:
